@@ -190,6 +190,10 @@ NestedV3 == {
   <<TUdt(<<TList(TInt), TUdt(<<TInt>>)>>), KUdtMap(<<KSlice(i32), KUdtMap(<<i32>>)>>), Tu(<<L(<<>>), Tu(<<I(3)>>)>>)>>,
   <<TList(U2), KSlice(KStruct(<<i32, str>>)), L(<<Tu(<<I(1), S(<<97>>)>>)>>)>>, <<TMap(TText, U2), KMap(str, KStruct(<<i32, KPtr(str)>>)), VMap(<<KV(S(<<107>>), Tu(<<I(1), VNull>>))>>)>>,
   <<TUdt(<<T2, NT("timestamp")>>), KStruct(<<KStruct(<<i32, str>>), KK("time")>>), Tu(<<Tu(<<I(1), S(<<97>>)>>), VEmpty>>)>>,
+  \* map / slice / pointer fields of a UDT struct (destinations that a decode must replace, not merge into)
+  <<TUdt(<<TMap(TText, TInt), TList(TText), TInt>>), KStruct(<<KMap(str, i32), KSlice(str), KPtr(i32)>>), Tu(<<VMap(<<KV(S(<<99>>), I(3))>>), L(<<S(<<122>>)>>), I(7)>>)>>,
+  <<TUdt(<<TMap(TText, TInt), TList(TText), TInt>>), KStruct(<<KMap(str, i32), KSlice(str), KPtr(i32)>>), Tu(<<VMap(<<>>), L(<<>>), VNull>>)>>,
+  <<TUdt(<<TMap(TText, TInt), TList(TText), TInt>>), KUdtMap(<<KMap(str, i32), KSlice(str), KPtr(i32)>>), Tu(<<VMap(<<KV(S(<<97>>), I(1)), KV(S(<<98>>), I(2))>>), L(<<S(<<>>)>>), VNull>>)>>,
   \* known-defect leaves inside tuples
   <<TTuple(<<NT("bigint"), TInt>>), KIfaces(<<KK("bigint"), i32>>), Tu(<<I(5), I(1)>>)>>
 }
